@@ -52,7 +52,7 @@ def programs(tier):
     m2 = {'n': 'other', 'args': [['q', ['c', 'BigC', {}]]], 'ret': I}
     prog = {'tns': TNS, 'enums': universe.ENUMS, 'classes': classes, 'services': [{'n': 'S', 'methods': [m, m2]}]}
     val = [Obj('D', a=Obj('A', x=1, s='t'), l=[Obj('A', x=2, s='u'), Obj('B', x=3, s='v', y=4)], d=datetime.date(2020, 1, 2),
-               dec=decimal.Decimal('1.5'), b=True, f=2.5, il=[7, 8], c=Obj('C', z=9), by=b'abc', e='red',
+               dec=decimal.Decimal('1.5'), b=True, f=2.5, il=[7, 8], c=Obj('C', z=9), by=b'abc', e='green',
                uu=uuid.UUID('12345678-1234-5678-1234-567812345678')), 5, 'str', [1, 2], 3, Obj('S1', x=1, s='a', v=42), Obj('S2', x=2, s='b', v='text')]
     val2 = [Obj('D', a=Obj('B', x=1, s='t', y=2), l=[Obj('A', x=2, s='u')], d=None, dec=decimal.Decimal('2'), b=False, f=1.0, il=[7],
                 c=None, by=None, e=None, uu=None), 0, '', [3], 0, Obj('S1', x=None, s=None, v=0), None]
